@@ -221,4 +221,81 @@ def d06Classes (tbl : ClassTable) (sol : TvMap) (s : SSig) (c : LCall) : List St
   (if pairs.any (fun p => protoClassObj tbl p.1 p.2) then ["protoClassObj"] else []) ++
   (if D06_equalLiteralArgs tbl sol s c then ["equalLiteralArgs"] else [])
 
+/-! ### how an annotation is written (spelling) versus the type it denotes
+
+The declared type of a parameter enters everything above as a `Ty`. In the source it can be written
+in several ways; `Spell` lists the ones the harness generates, `Spell.resolve` is the type each
+denotes. The model's verdict is a function of the resolved header only
+(`Props/C06.lean: call_verdict_of_resolved`); the `spelling` stream of the harness ties the
+implementation to that statement. -/
+
+inductive Spell where
+  | plain (t : Ty)            -- `Optional[A]`
+  | quoted (t : Ty)           -- `"Optional[A]"`
+  | partialQ (t : Ty)         -- `Optional["A"]`: every class name inside a construct quoted
+  | late (t : Ty)             -- the names are defined after the function (forward references proper)
+  | alias (n : Nat) (t : Ty)  -- `Alias = Optional["A"]`, annotation `Alias`
+  | strTv (t : Ty)            -- type variables whose bound / constraints are given as strings
+  | future (t : Ty)           -- `from __future__ import annotations`
+  deriving Inhabited
+
+def Spell.resolve : Spell → Ty
+  | .plain t | .quoted t | .partialQ t | .late t | .alias _ t | .strTv t | .future t => t
+
+structure SpelledP where
+  name : String
+  dflt : Option Obj
+  ann : Spell
+
+/-- a header as written -/
+structure SpelledSig where
+  po : List SpelledP
+  pk : List SpelledP
+  vp : Option (String × Spell)
+  ko : List SpelledP
+  vk : Option (String × Spell)
+  ret : Spell
+  tvs : TvDecls := []
+
+def SpelledP.resolve (p : SpelledP) : SP := ⟨p.name, p.dflt, p.ann.resolve⟩
+
+/-- the header the annotations denote -/
+def SpelledSig.resolve (s : SpelledSig) : SSig :=
+  { po := s.po.map SpelledP.resolve, pk := s.pk.map SpelledP.resolve,
+    vp := s.vp.map fun nt => (nt.1, nt.2.resolve), ko := s.ko.map SpelledP.resolve,
+    vk := s.vk.map fun nt => (nt.1, nt.2.resolve), ret := s.ret.resolve, tvs := s.tvs }
+
+/-! ### where pyanalyze converts annotations of runtime signatures (arg_spec.py)
+
+The registered sites: every `type_from_runtime(...)` call of arg_spec.py with the context it is
+given, and every `AnnotationsContext(...)` construction with the globals it gets. The live lists are
+regenerated from the source on every run (`Generated/AnnotCtx.lean`); `Props/C06.lean:
+annotation_contexts_registered` demands that nothing unregistered appears and that the two sites
+converting parameter and return annotations use a context carrying the function's globals (a
+context without globals turns every embedded forward reference into `Any`). -/
+
+def registeredTypeFromRuntime : List (String × String) :=
+  [("ArgSpecCache._get_generic_bases_cached", "default"),        -- typeshed / runtime bases: no user names
+   ("ArgSpecCache._get_type_for_parameter", "globals:func_globals"),
+   ("ArgSpecCache._uncached_get_argspec", "default"),            -- NewType supertype
+   ("ArgSpecCache._uncached_get_argspec", "none"),               -- a TypedDict class object
+   ("ArgSpecCache.from_signature", "globals:func_globals")]
+
+def registeredAnnotCtxCtors : List (String × String) :=
+  [("ArgSpecCache.__init__", "noglobals"),                        -- `self.default_context`
+   ("ArgSpecCache._get_type_for_parameter", "globals:func_globals"),
+   ("ArgSpecCache.from_signature", "globals:func_globals")]
+
+/-- the functions that convert the annotations of a signature -/
+def signatureAnnotFns : List String :=
+  ["ArgSpecCache._get_type_for_parameter", "ArgSpecCache.from_signature"]
+
+def annotSitesOk (ctors calls : List (String × String)) : Bool :=
+  calls.all (fun c => registeredTypeFromRuntime.contains c) &&
+  ctors.all (fun c => registeredAnnotCtxCtors.contains c) &&
+  -- every signature-annotation site is present and is given the function's globals, only
+  signatureAnnotFns.all (fun f =>
+    calls.any (fun c => c.1 == f) &&
+    calls.all (fun c => c.1 != f || c.2 == "globals:func_globals"))
+
 end Pya.C06
